@@ -4,7 +4,7 @@
 use crate::env::{initial_snapshot, run_real, CtxKind, Entry, Ev, Outcome, Path, Setup};
 use crate::json::Json;
 use crate::prog::Expr;
-use crate::refint::{run_ref, tree_has_assignment, Delegate};
+use crate::refint::{run_ref, tree_has_assignment, tree_has_op_assignment, Delegate};
 use crate::rng::{Fnv, Rng};
 use crate::stats::Stats;
 use evalexpr::{build_operator_tree, DefaultNumericTypes, Node};
@@ -58,6 +58,8 @@ pub struct Case {
     pub setup: Setup,
     pub kind: CtxKind,
     pub entry: Entry,
+    /// index into `TYPED_ENTRIES` (0 = the untyped entry point)
+    pub typed: usize,
 }
 
 impl Case {
@@ -73,6 +75,7 @@ impl Case {
                     Entry::Str => "string",
                 }),
             )
+            .with("typed_entry", Json::s(crate::env::TYPED_ENTRIES[self.typed % 8]))
             .with("setup", self.setup.to_json())
             .with("program", self.program.to_json())
     }
@@ -88,6 +91,11 @@ impl Case {
                 "string" => Entry::Str,
                 _ => return Err("unknown entry".into()),
             },
+            typed: j
+                .get("typed_entry")
+                .and_then(|t| t.as_str())
+                .and_then(|t| crate::env::TYPED_ENTRIES.iter().position(|e| *e == t))
+                .unwrap_or(0),
         })
     }
 
@@ -207,7 +215,7 @@ pub fn check_plan(
 ) -> PlanResult {
     let kind = case.kind;
     // -------- mutable path against the reference (the C08 oracle; C11 needs its verdict too)
-    let r_mut = match run_ref(tree, &case.setup, kind, false, faults, cx.delegate) {
+    let r_mut = match run_ref(tree, &case.setup, kind, false, case.typed, faults, cx.delegate) {
         Ok(o) => o,
         Err(_) => {
             cx.stats.inc("skipped_by_reference");
@@ -219,7 +227,7 @@ pub fn check_plan(
             };
         },
     };
-    let o_mut = run_real(tree, src, &case.setup, kind, Path::Mut, case.entry, faults);
+    let o_mut = run_real(tree, src, &case.setup, kind, Path::Mut, case.entry, case.typed, faults);
     cx.stats.inc("evaluations_real");
     cx.stats.add("seam_calls", o_mut.log.len() as u64);
     for (_, k) in &o_mut.fired {
@@ -240,12 +248,12 @@ pub fn check_plan(
 
     // -------- C11
     let has_assign = tree_has_assignment(tree);
-    let o_imm = run_real(tree, src, &case.setup, kind, Path::Imm, case.entry, faults);
+    let o_imm = run_real(tree, src, &case.setup, kind, Path::Imm, case.entry, case.typed, faults);
     cx.stats.inc("evaluations_real");
     let (init_vars, init_fns) = initial_snapshot(&case.setup, kind);
     // (1) never mutates
     if o_imm.panicked {
-        let r_imm = run_ref(tree, &case.setup, kind, true, faults, cx.delegate).ok();
+        let r_imm = run_ref(tree, &case.setup, kind, true, case.typed, faults, cx.delegate).ok();
         let exp = r_imm.unwrap_or_else(|| o_mut.clone());
         return PlanResult {
             finding: Some(finding(prop, "panic", "immutable-path", faults, &exp, &o_imm)),
@@ -310,13 +318,51 @@ pub fn check_plan(
             };
         }
     } else {
-        // (3) assignment operators present: judged only if the mutable path is the evaluator the
-        // reference describes; otherwise the deviation is C08's business
+        // (3r) reference-free relations between the two real runs, sound even if both paths
+        // deviate from the reference in the same way: the read-only run does what the mutable
+        // run does until it reaches an assignment, never writes, and either ends like the
+        // mutable run or with ContextNotMutable
+        let prefix_ok = o_imm.log.len() <= o_mut.log.len()
+            && o_imm.log[..] == o_mut.log[..o_imm.log.len()]
+            && !o_imm.log.iter().any(|e| matches!(e, Ev::Set(..)));
+        if !prefix_ok {
+            return PlanResult {
+                finding: Some(finding(
+                    prop,
+                    "history-mismatch",
+                    "immutable-history-not-a-prefix-of-mutable",
+                    faults,
+                    &o_mut,
+                    &o_imm,
+                )),
+                ref_log,
+                skipped: false,
+                mut_agrees: mut_diff.is_none(),
+            };
+        }
+        if o_imm.result != o_mut.result && o_imm.result != "Err(ContextNotMutable)" {
+            return PlanResult {
+                finding: Some(finding(
+                    prop,
+                    "result-mismatch",
+                    "immutable-result-neither-mutable-result-nor-ContextNotMutable",
+                    faults,
+                    &o_mut,
+                    &o_imm,
+                )),
+                ref_log,
+                skipped: false,
+                mut_agrees: mut_diff.is_none(),
+            };
+        }
+        cx.stats.inc("c11.relational_checked");
+        // (3) assignment operators present: the exact projection is judged only if the mutable
+        // path is the evaluator the reference describes; otherwise the deviation is C08's business
         if mut_diff.is_some() {
             cx.stats.inc("c11.skipped_mutable_deviates");
         } else {
             cx.stats.inc("c11.assignment_trees");
-            if let Ok(r_imm) = run_ref(tree, &case.setup, kind, true, faults, cx.delegate) {
+            if let Ok(r_imm) = run_ref(tree, &case.setup, kind, true, case.typed, faults, cx.delegate) {
                 if r_imm.result.contains("ContextNotMutable") {
                     cx.stats.inc("c11.projected_to_context_not_mutable");
                 } else {
@@ -357,17 +403,42 @@ pub fn check_storeless(case: &Case, tree: &Node, src: Option<&str>, cx: &mut Ctx
     let prop = Prop::C11;
     // --- the default `set_value`: every assignment is refused, after its operands (and, for an
     // operator-assignment, the read and the plain operator) were evaluated
-    let r_mut = run_ref(tree, &case.setup, CtxKind::NoStore, false, &[], cx.delegate).ok()?;
-    let o_mut = run_real(tree, src, &case.setup, CtxKind::NoStore, Path::Mut, case.entry, &[]);
-    cx.stats.inc("evaluations_real");
+    let o_mut = run_real(tree, src, &case.setup, CtxKind::NoStore, Path::Mut, case.entry, case.typed, &[]);
+    let o_imm = run_real(tree, src, &case.setup, CtxKind::NoStore, Path::Imm, case.entry, case.typed, &[]);
+    cx.stats.add("evaluations_real", 2);
+    cx.stats.inc("c11.nostore_context_evaluations");
+    // reference-free: on a context that cannot store, the mutable entry must reject an
+    // assignment whenever the read-only entry does; if all assignment operators of the tree are
+    // plain `=`, both entries must behave identically (same history, same result)
+    if tree_has_assignment(tree) {
+        if !tree_has_op_assignment(tree) {
+            if let Some(class) = diff_class(&o_imm, &o_mut, true) {
+                return Some(finding(
+                    prop,
+                    class,
+                    "storeless-context(mutable entry differs from read-only entry)",
+                    &[],
+                    &o_imm,
+                    &o_mut,
+                ));
+            }
+        } else if o_imm.result == "Err(ContextNotMutable)" && !o_mut.result.starts_with("Err(") {
+            return Some(finding(
+                prop,
+                "result-mismatch",
+                "storeless-context(mutable entry accepts an assignment)",
+                &[],
+                &o_imm,
+                &o_mut,
+            ));
+        }
+    }
+    let r_mut = run_ref(tree, &case.setup, CtxKind::NoStore, false, case.typed, &[], cx.delegate).ok()?;
     if diff_class(&r_mut, &o_mut, true).is_some() {
         cx.stats.inc("c11.skipped_mutable_deviates");
         return None;
     }
-    let r_imm = run_ref(tree, &case.setup, CtxKind::NoStore, true, &[], cx.delegate).ok()?;
-    let o_imm = run_real(tree, src, &case.setup, CtxKind::NoStore, Path::Imm, case.entry, &[]);
-    cx.stats.inc("evaluations_real");
-    cx.stats.inc("c11.nostore_context_evaluations");
+    let r_imm = run_ref(tree, &case.setup, CtxKind::NoStore, true, case.typed, &[], cx.delegate).ok()?;
     if let Some(class) = diff_class(&r_imm, &o_imm, true) {
         return Some(finding(prop, class, "storeless-context(default set_value)", &[], &r_imm, &o_imm));
     }
@@ -384,21 +455,21 @@ pub fn check_storeless(case: &Case, tree: &Node, src: Option<&str>, cx: &mut Ctx
             fns: vec![],
             builtins_disabled: kind == CtxKind::Empty,
         };
-        let rw = match run_ref(tree, &witness_setup, CtxKind::NoStore, false, &[], cx.delegate) {
+        let rw = match run_ref(tree, &witness_setup, CtxKind::NoStore, false, case.typed, &[], cx.delegate) {
             Ok(r) => r,
             Err(_) => continue,
         };
-        let ow = run_real(tree, src, &witness_setup, CtxKind::NoStore, Path::Mut, case.entry, &[]);
+        let ow = run_real(tree, src, &witness_setup, CtxKind::NoStore, Path::Mut, case.entry, case.typed, &[]);
         cx.stats.inc("evaluations_real");
         if diff_class(&rw, &ow, true).is_some() {
             cx.stats.inc("c11.skipped_mutable_deviates");
             continue;
         }
-        let r = match run_ref(tree, &empty_setup, kind, true, &[], cx.delegate) {
+        let r = match run_ref(tree, &empty_setup, kind, true, case.typed, &[], cx.delegate) {
             Ok(r) => r,
             Err(_) => continue,
         };
-        let o = run_real(tree, src, &empty_setup, kind, Path::Imm, case.entry, &[]);
+        let o = run_real(tree, src, &empty_setup, kind, Path::Imm, case.entry, case.typed, &[]);
         cx.stats.inc("evaluations_real");
         cx.stats.inc("c11.empty_context_evaluations");
         if let Some(class) = diff_class(&r, &o, true) {
